@@ -43,7 +43,9 @@ def write_case(spec, d):
     pipelines = {}
     observations = []
     for i, o in enumerate(spec["observations"]):
-        wfname = "wf_%s.json" % o["name"]
+        # every pipeline's workflow file has the same base name, in a directory of its own
+        os.makedirs(os.path.join(d, "pipe_%s" % o["name"]), exist_ok=True)
+        wfname = "pipe_%s/workflow.json" % o["name"]
         with open(os.path.join(d, wfname), "w") as f:
             json.dump(wf_to_nodelink(o["workflow"]), f)
         pipelines[o["name"]] = {"workflow": wfname,
@@ -87,7 +89,9 @@ def write_case(spec, d):
 def gen_workflow(rng, max_nodes=6, speeds=(10,), allow_zero=True, shape=None):
     n = rng.randint(1, max_nodes)
     shape = shape or rng.choice(["chain", "diamond", "fan", "random", "random",
-                                 "disconnected", "single"])
+                                 "disconnected", "single", "chains2"])
+    if shape == "chains2":
+        n = max(n, 5)
     if shape == "single":
         n = 1
     nodes = []
@@ -113,6 +117,11 @@ def gen_workflow(rng, max_nodes=6, speeds=(10,), allow_zero=True, shape=None):
         edges = [(0, i) for i in range(1, n - 1)] + [(i, n - 1) for i in range(1, n - 1)]
     elif shape == "fan":
         edges = [(0, i) for i in range(1, n)]
+    elif shape == "chains2":
+        # a root with two parallel chains of very different length: 0 -> 1 -> 3 (-> 5 ...) and 0 -> 2 -> 4 (...)
+        edges = [(0, 1), (0, 2)] + [(i, i + 2) for i in range(1, n - 2)]
+        nodes[1]["comp"] = rng.choice([0, 1, sp])
+        nodes[2]["comp"] = sp * rng.randint(4, 8)
     elif shape == "disconnected":
         h = n // 2
         edges = [(i, i + 1) for i in range(h - 1)] + [(i, i + 1) for i in range(h, n - 1)]
